@@ -1128,6 +1128,11 @@ PARTS = {
                                             "declaration hiding an outer one would be consistent as well (then nothing else is asserted)"],
                                desc="a `!switch` case nested in a `!switch` case, both declaring a variable (same name or different names, symbolic numeric types), through the real dsl.Validate: "
                                     "the static type of `name + name` in the inner case is the promotion of the type of the INNERMOST declaration of that name")),
+        (G, "gosym_part", dict(name="c19_generic_instances", entry="internal/zzverif.C19GenericInstances", args_quick=(0,), args_thorough=(1,),
+                               required_sites=("accepted", "computed-field-of-the-first-instantiation-has-its-own-type", "computed-field-of-the-second-instantiation-has-its-own-type"),
+                               assumptions=["binary promotion = the real dsl.GetCommonType, small integers promoted to int32; instantiation types over 7 numeric primitives (thorough: 13)"],
+                               desc="a generic record G<T> with computed fields over its T-typed field, instantiated twice (G<P1>, G<P2>, symbolic primitives) in one record whose computed fields read "
+                                    "a computed field of each instance, in a symbolic declaration order: each has the static type its own instantiation gives it")),
         (G, "gosym_part", dict(name="c19_alias_operands", entry="internal/zzverif.C19AliasOperands", args_quick=(0,), args_thorough=(1,),
                                extra_thorough=("-max-paths", "400000"),
                                required_sites=("accept-reject-independent-of-alias-levels", "resolved-tree-and-static-types-independent-of-alias-levels",
